@@ -110,13 +110,13 @@ REGISTRY['C16'] = {
 }
 
 REGISTRY['C20'] = {
-    'v': ['c20_auth', 'c20_chain', 'c20_unix'],
+    'v': ['c20_auth', 'c20_chain', 'c20_unix', 'c20_login'],
     'k': [],
     'k_thorough': ['k_admin_token'],
-    'level_text': 'Credential kernels on the real text: the provider chain (Authorizer::authenticate_request) yields an authenticated identity only if the legacy token provider, else the primary provider, else the Unix-socket provider accepted the request, and otherwise the anonymous actor or an authentication error, never a role; the Unix-socket provider accepts exactly a peer whose user name is in the configured map and then acts as that name under the mapped role (unmapped peer: error, no peer: nobody); the admin token authenticates exactly when the bearer token is byte-equal to the configured one (wrong token is an error, no token is nobody) and then acts as the configured identity; decrypt rejects short payloads without slicing out of bounds, passes nonce/tag/ciphertext to AEAD-open in the right positions and returns only what it returned (rejected iff the tag fails). scrypt, base64, Unicode normalisation of user names and session-cache hits are not decided.',
+    'level_text': 'Credential kernels on the real text: the provider chain (Authorizer::authenticate_request) yields an authenticated identity only if the legacy token provider, else the primary provider, else the Unix-socket provider accepted the request, and otherwise the anonymous actor or an authentication error, never a role; the Unix-socket provider accepts exactly a peer whose user name is in the configured map and then acts as that name under the mapped role (unmapped peer: error, no peer: nobody); the admin token authenticates exactly when the bearer token is byte-equal to the configured one (wrong token is an error, no token is nobody) and then acts as the configured identity; decrypt rejects short payloads without slicing out of bounds, passes nonce/tag/ciphertext to AEAD-open in the right positions and returns only what it returned (rejected iff the tag fails). Login (config-file provider, the whole function verbatim): it succeeds only for a user name that is, as presented, a configured user, whose normalised password hashes (double scrypt, weak salt of the normalised name, that user\'s salt) to that user\'s stored hash, whose role exists and permits login, and the session issued carries that user\'s role (finding F9, fixed). scrypt, hex, Unicode normalisation are uninterpreted functions; the decoding of a presented session token (base64, session cache) is not decided.',
     'level_note': 'ChaCha20-Poly1305 open, bearer-token extraction, Token equality (derived PartialEq over String) are assumed externals.',
     'design_ref': 'DESIGN.md section 10.4 (as built) and section 5 / C20',
-    'not_covered': ['config_file provider login (scrypt, hex, Unicode normalisation)', 'session cache hits (tokio RwLock)', 'OpenID Connect provider'],
+    'not_covered': ['config_file provider authenticate / LoginSessionCache::decode (function-pointer field, base64 engine, serde; Verus has no function pointer types)', 'session cache hits (tokio RwLock)', 'extraction of Basic credentials from the request (get_auth)', 'OpenID Connect provider'],
 }
 
 NOT_APPLICABLE = [
